@@ -204,6 +204,10 @@ func (root *Root) regField(obj *Object, fd *FieldDef, goField string, args ...st
 	obj.mu.Lock()
 	meta := obj.meta
 	obj.mu.Unlock()
+	// The meta of the object as it was read under the lock. Another request
+	// can be in assureType for the same object at the same time so the meta
+	// of the object must not be read again without the lock.
+	objMeta := meta
 	if meta == nil {
 		// No Go type, for example the root object is nil.
 		return fmt.Errorf("%w: no Go type to resolve field %s of %s with", ErrMeta, goField, obj.N)
@@ -222,8 +226,8 @@ func (root *Root) regField(obj *Object, fd *FieldDef, goField string, args ...st
 			return
 		}
 	}
-	for i := obj.meta.NumMethod() - 1; 0 <= i; i-- {
-		m := obj.meta.Method(i)
+	for i := objMeta.NumMethod() - 1; 0 <= i; i-- {
+		m := objMeta.Method(i)
 		if strings.EqualFold(m.Name, goField) {
 			fd.method = &m.Func
 			break
@@ -232,14 +236,14 @@ func (root *Root) regField(obj *Object, fd *FieldDef, goField string, args ...st
 	if fd.method != nil {
 		if 0 < len(args) {
 			if fd.args.Len() != len(args) {
-				return fmt.Errorf("%w: not enough arguments for field %s of %s", ErrMeta, goField, obj.meta)
+				return fmt.Errorf("%w: not enough arguments for field %s of %s", ErrMeta, goField, objMeta)
 			}
 			newArgs := argList{}
 			for _, arg := range args {
 				if a := fd.args.get(arg); a != nil {
 					_ = newArgs.add(a)
 				} else {
-					err = fmt.Errorf("%w: %s is not an argument on field %s of %s", ErrMeta, arg, goField, obj.meta)
+					err = fmt.Errorf("%w: %s is not an argument on field %s of %s", ErrMeta, arg, goField, objMeta)
 					break
 				}
 			}
@@ -247,7 +251,7 @@ func (root *Root) regField(obj *Object, fd *FieldDef, goField string, args ...st
 		}
 		return
 	}
-	return fmt.Errorf("%w: %s is not a field of %s", ErrMeta, goField, obj.meta)
+	return fmt.Errorf("%w: %s is not a field of %s", ErrMeta, goField, objMeta)
 }
 
 func (root *Root) addTypes(types ...Type) error {
